@@ -268,6 +268,35 @@ class World:
         return cross_val_score(est, a[0], a[1], cv=cv, error_score=-1.0)
       return cross_val_score(make_pipeline(est, KNeighborsClassifier(n_neighbors=1)), a[0], a[1], cv=cv, error_score=-1.0)
 
+  def grid_search(self, est, d):
+    """GridSearchCV over the world's parameter settings (one single-valued grid per setting); mean validation scores"""
+    from sklearn.model_selection import GridSearchCV, KFold
+    from sklearn.pipeline import Pipeline
+    from sklearn.neighbors import KNeighborsClassifier
+    tr = self.train[d - 1]
+    a = tr['fit_args']
+    cv = KFold(2, shuffle=True, random_state=0)
+    pre = '' if self.kind == 'pairs' else 'ml__'
+    # every candidate is FULLY specified (the parameters a setting does not mention are the constructor defaults), so the
+    # scores cannot depend on the parameters the estimator object handed in happens to have
+    defaults = dict(gen.CLS[self.name]().get_params())
+    grid = [{pre + k: [v] for k, v in dict(defaults, **pj).items()} for pj in self.P]
+    model = est if self.kind == 'pairs' else Pipeline([('ml', est), ('knn', KNeighborsClassifier(n_neighbors=1))])
+    with warnings.catch_warnings(), contextlib.redirect_stdout(io.StringIO()):
+      warnings.simplefilter('ignore')
+      gs = GridSearchCV(model, grid, cv=cv, error_score=-1.0, refit=False).fit(a[0], a[1])
+    return np.round(np.asarray(gs.cv_results_['mean_test_score'], dtype=float), 10)
+
+  def grid_reference(self, d):
+    """the same scores from separate cross-validations of estimators CONSTRUCTED with each setting"""
+    out = []
+    for p in range(1, len(self.P) + 1):
+      try:
+        out.append(float(np.mean(self.cross_validate(self.new(p), d))))
+      except Exception:
+        out.append(-1.0)
+    return np.round(np.asarray(out, dtype=float), 10)
+
   def dim_index_of(self, est):
     """index (0-based) of a data set with the estimator's current dimensionality"""
     k = est.components_.shape[1]
@@ -305,13 +334,20 @@ class World:
             digest(float(est.threshold_)) if 'threshold_' in vars(est) else 'none']
 
 
+def grid_term(w, d):
+  """value of the GridSearch term: the per-setting mean scores; scikit-learn raises when EVERY fit of the search failed"""
+  r = w.grid_reference(d)
+  return 'raised:ValueError' if np.all(r == -1.0) else digest(r)
+
+
 def reference(w):
   """values of all abstract terms, from executions on fresh objects"""
   np_, nd = len(w.P), len(w.dims)
   ref = {'nt': w.nt, 'ns': w.ns, 'arrays': w.arrays_digest(),
          'params': [w.params_digest(w.new(p)) for p in range(1, np_ + 1)],
          'model': [], 'thrfit': [], 'thrset': [digest(float(t)) for t in w.T], 'thrcal': [], 'query': [],
-         'metric': [], 'matrix': [], 'fit_transform': [], 'crossval': []}
+         'metric': [], 'matrix': [], 'fit_transform': [], 'crossval': [],
+         'gridsearch': [grid_term(w, d) if w.has_crossval() else 'none' for d in range(1, nd + 1)]}
   nq = len(w.qnames)
   nk = 1 + w.nt + w.nv * w.ns
   defaults = dict(gen.CLS[w.name]().get_params())
@@ -446,6 +482,12 @@ def run(w, ops):
         except Exception as ex:
           # (all folds may fail, e.g. too few points for the requested chunks: a value like any other, as in the reference)
           ev['out'] = 'raised:' + type(ex).__name__
+      elif kind == 'GridSearch':
+        ev['obj'], ev['data'] = op[1], op[2]
+        try:
+          ev['out'] = digest(w.grid_search(objs[op[1] - 1], op[2]))
+        except Exception as ex:
+          ev['out'] = 'raised:' + type(ex).__name__
       elif kind == 'SetThreshold':
         ev['obj'], ev['t'] = op[1], op[2]
         objs[op[1] - 1].set_threshold(w.T[op[2] - 1])
@@ -503,7 +545,7 @@ def ops_from_last(states):
       ops.append(['New', last[2]])
     elif k in ('Clone', 'Pickle', 'GetMetric', 'GetMatrix'):
       ops.append([k, last[1]])
-    elif k in ('Fit', 'FitTransform', 'CrossValidate'):
+    elif k in ('Fit', 'FitTransform', 'CrossValidate', 'GridSearch'):
       ops.append([k, last[1], last[2]])
     elif k in ('SetParams', 'SetThreshold'):
       ops.append([k, last[1], last[2]])
